@@ -321,3 +321,6 @@ def max_diff_contract(ck, prog):
 def run(ck, prog):
     _run_pre_maxdiff(ck, prog)
     max_diff_contract(ck, prog)
+
+
+EXPLANATION += (' dot: the four unit-dimension tests form the same truth table on every backend; max_diff rejects a shape mismatch on every backend (found and fixed).')
